@@ -261,7 +261,7 @@ func (r *Run) Finish() {
 		os.MkdirAll(dir, 0o755)
 		p := filepath.Join(dir, hex.EncodeToString(h[:6])+".json")
 		os.WriteFile(p, append(vb, '\n'), 0o644)
-		fmt.Printf("  oracle=%s what=%s features=%s\n", v.Oracle, trunc(v.What, 400), featKey(v.Features))
+		fmt.Printf("  oracle=%s what=%s features=%s\n", v.Oracle, trunc(v.What, 260), featKey(v.Features))
 		fmt.Printf("VIOLATION property=%s replay=%s\n", r.ID, p)
 	}
 	os.Exit(1)
